@@ -139,6 +139,30 @@ class Seam:
         if not ok:
             self.cls = None
             self.missing.append("UnionFindPhase")
+        # how does the real pipeline construct its union-find? (extra positional / keyword arguments, e.g. a dtype)
+        self.ctor_extra = ((), {})
+        if self.cls is not None:
+            seen = []
+            orig_init = self.cls.__init__
+
+            def spy(obj, *a, **k):
+                seen.append((a, k))
+                return orig_init(obj, *a, **k)
+
+            try:
+                self.cls.__init__ = spy
+                yy, xx = np.mgrid[:2, :3].astype(float)
+                public_unwrap()(torch.tensor(wrap_pi(2.4 * xx + 1.7 * yy)), method="reliability-sorting", wrap_around=False)
+            except Exception:
+                pass
+            finally:
+                self.cls.__init__ = orig_init
+            if len(seen) == 1 and len(seen[0][0]) >= 1 and seen[0][0][0] == 6:
+                self.ctor_extra = (tuple(seen[0][0][1:]), dict(seen[0][1]))
+                try:
+                    self.make(3)
+                except Exception:
+                    self.ctor_extra = ((), {})
         self.final = getattr(iu, "_final_offsets", None)
         if self.cls is not None and self.final is not None:
             try:
@@ -164,6 +188,12 @@ class Seam:
             self.bf = getattr(dpu, "unwrap_bf_overlap_phase_torch", None)
         except Exception:
             self.bf = None
+
+
+    def make(self, n):
+        """A fresh union-find over n pixels, built with the same extra arguments the unwrapper passes."""
+        a, k = self.ctor_extra
+        return self.cls(n, *a, **k)
 
 
 _SEAM = None
@@ -406,7 +436,7 @@ def decade(x):
     return f"1e{int(math.floor(math.log10(x)))}"
 
 
-def judge(out, truth, given, lab, ncomp, smooth, kind):
+def judge(out, truth, given, lab, ncomp, smooth, kind, TOL=TOL):
     """Returns (list of (relation, message), nontrivial, outcome, worst deviation)."""
     bad = []
     worst = 0.0
@@ -455,13 +485,16 @@ def run_point(H, W, md, wrap, field, kind, dtype, seed):
     truth = make_field(field, H, W, bool(wrap), seed)
     given64 = truth if kind == "unwrapped" else wrap_pi(truth)
     x = torch.tensor(np.array(given64), dtype=torch_dtype(dtype))
-    given = x.to(torch.float64).numpy()
+    given = x.to(torch.float64).numpy().copy()
     # what the function really received decides the truth it can be asked to return (float32 rounding of the input)
     truth_eff = truth + (given - given64)
     mt = None if mask is None else torch.tensor(mask)
+    x0 = x.clone()
     try:
         out_t = public_unwrap()(x, method="reliability-sorting", mask=mt, wrap_around=bool(wrap))
         out = out_t.detach().to(torch.float64).numpy()
+        if x.numpy().tobytes() != x0.numpy().tobytes() or (mt is not None and not np.array_equal(mt.numpy(), mask)):
+            return dict(bad=[("input_unmodified", "the call changed its input tensor or mask in place")], nontrivial=True, outcome="input_modified", worst=0.0)
         if out.shape != (H, W):
             return dict(bad=[("result_shape", f"result has shape {out.shape}, input {(H, W)}")], nontrivial=True, outcome="shape", worst=0.0)
     except Exception as e:  # the behaviour under test: must not raise on admissible input
@@ -603,7 +636,7 @@ def a1_explore(cfg, seed=0, reduce_noops=True, want_keys=False):
         for p in comp:
             comp_of[p] = ci
 
-    start = S.cls(N)
+    start = S.make(N)
     seen = {state_key(start)}
     roots0, bad0 = inspect_state(start, N, kk, S.final)
     for rel, msg in bad0:
@@ -868,6 +901,322 @@ def poisson_point(pt, seed=0):
     return t
 
 
+# ============================================================================= L: long steep fields (magnitude thresholds)
+# Small-scope enumeration cannot see a magnitude threshold unless the alphabet straddles it.  The wrap count of a ramp
+# at 0.9*pi per sample over N samples is 0.45*(N-1): 125 (N=280) / 134 (N=300) straddle the int8 limit 127/128 and
+# 251 (N=560) / 269 (N=600) straddle 255/256 -- and +-135 from the middle of the axis for N=600, so the limit is crossed
+# wherever the root of the union-find tree ends up.  32767/32768 is only reached in A3 (left-to-right chain of 73,000).
+LONG_N = (280, 300, 560, 600)
+EPS32 = 1.1920929e-07
+# Tolerance for the long family: the library adds float32(2*pi*k) to the input, so the result carries a rounding error of
+# up to half a float32 ulp of the field range.  tol = max(TOL, 32 * eps32 * range): 6.5e-3 rad at range 1,700 rad; worst
+# deviation observed there (seeds 0,1,2, both dtypes): 2.4e-4 rad (27x below).  Effect of the int8 wrap: 256*2*pi = 1,608 rad;
+# of one wrong wrap: 6.28 rad.  Capped at 0.3 rad (1/20 of 2*pi).
+
+
+def long_tol(rng):
+    return min(0.3, max(TOL, 32 * EPS32 * float(rng)))
+
+
+def long_shapes():
+    return [(1, n) for n in LONG_N] + [(3, n) for n in LONG_N] + [(n, 2) for n in LONG_N]
+
+
+def long_masks(H, W):
+    short = min(H, W)
+    return {1: ("none", "gap"), 2: ("none", "bridge"), 3: ("none", "hole", "bridge")}[short]
+
+
+def long_mask(name, H, W):
+    """Masks in the middle of the long axis: 'gap' splits a 1xN line in two regions, 'hole' removes the centre pixel of a
+    3xN strip, 'bridge' leaves a single pixel of the middle column (3xN) / middle row (Nx2)."""
+    if name == "none":
+        return None
+    m = np.ones((H, W), bool)
+    tr = H > W
+    mm = m.T if tr else m  # (short, long) view
+    n = mm.shape[1]
+    if name == "gap":
+        mm[0, n // 2] = False
+    elif name == "hole":
+        mm[1, n // 2] = False
+    elif name == "bridge":
+        mm[:, n // 2] = False
+        mm[mm.shape[0] // 2, n // 2] = True
+    else:
+        raise ValueError(name)
+    return m
+
+
+@functools.lru_cache(maxsize=256)
+def long_field(name, H, W):
+    yy, xx = np.mgrid[:H, :W].astype(float)
+    L, S = (yy, xx) if H > W else (xx, yy)
+    n = max(H, W)
+    if name == "long_ramp":
+        f = ITOH * L
+    elif name == "long_diag_neg":
+        f = -ITOH * L + 0.7 * S
+    elif name == "long_triangle":  # periodic and single valued along the long axis, constant across
+        f = ITOH * np.minimum(L, n - L)
+    else:
+        raise ValueError(name)
+    f = f + 0.37
+    if max_step(f, name == "long_triangle") > 0.9001 * math.pi:
+        raise Broken(f"long field {name} {H}x{W} violates its own Itoh margin")
+    f.setflags(write=False)
+    return f
+
+
+def long_run(H, W, mname, wrap, field, dtype):
+    mask = long_mask(mname, H, W)
+    truth = long_field(field, H, W)
+    given64 = wrap_pi(truth)
+    x = torch.tensor(given64, dtype=torch_dtype(dtype))
+    given = x.to(torch.float64).numpy().copy()
+    truth_eff = truth + (given - given64)
+    tol = long_tol(np.ptp(truth))
+    x0 = x.clone()
+    try:
+        out = public_unwrap()(x, method="reliability-sorting", mask=None if mask is None else torch.tensor(mask), wrap_around=bool(wrap))
+        out = out.detach().to(torch.float64).numpy()
+    except Exception as e:
+        return dict(bad=[("raised", f"unwrap_phase_2d_torch raised {type(e).__name__}: {e}")], span=0, outcome="raised", worst=0.0, tol=tol)
+    if x.numpy().tobytes() != x0.numpy().tobytes():
+        return dict(bad=[("input_unmodified", "the call changed its input tensor in place")], span=0, outcome="input_modified", worst=0.0, tol=tol)
+    m = np.ones((H, W), bool) if mask is None else mask
+    lab, n = components(m, bool(wrap))
+    bad, _, pattern, worst = judge(out, truth_eff, given, lab, n, True, "wrapped", TOL=tol)
+    kk = wrap_counts(truth)[1]
+    span = max(int(np.ptp(kk[lab == c])) for c in range(1, n + 1))
+    return dict(bad=bad, span=span, outcome=(n, digest([list(p) for p in pattern])), worst=worst, tol=tol)
+
+
+def long_point(pt, seed=0):
+    H, W, mname, wrap, field, dtype = pt
+    t = Tally()
+    r = long_run(H, W, mname, wrap, field, dtype)
+    # non-trivial: the true wrap count spans more than 127 inside one connected region (beyond a signed 8-bit integer)
+    t.case(key=("L",) + tuple(pt), nontrivial=r["span"] > 127, outcome=("L", H, W, mname, bool(wrap), field, r["outcome"]))
+    t.extra["L_calls"] += 1
+    t.extra["L_wrap_span_" + ("le127" if r["span"] <= 127 else "128_255" if r["span"] <= 255 else "256_32767" if r["span"] <= 32767 else "ge32768")] += 1
+    t.extra["L_dev_over_tol_" + decade(r["worst"] / r["tol"])] += 1
+    case = {"part": "L", "pt": list(pt)}
+    for rel, msg in r["bad"]:
+        t.fail({"part": "L_long_steep_fields", "relation": rel, "wrap_around": bool(wrap)}, case,
+               f"{H}x{W} mask={mname} wrap_around={bool(wrap)} field={field} {dtype} (true wrap count spans {r['span']} inside one region; tol {r['tol']:.3g} rad): {msg}")
+    if (H, W, mname, field, dtype) == (3, 300, "bridge", "long_ramp", "f64"):
+        t.sample({"part": "L", "shape": [H, W], "mask": mname, "wrap_around": bool(wrap), "field": field, "dtype": dtype,
+                  "true_wrap_count_span_in_one_region": r["span"], "worst_deviation_rad": r["worst"], "tolerance_rad": r["tol"]}, cap=1)
+    return t
+
+
+def long_lattice(ctx):
+    pts = []
+    for H, W in long_shapes():
+        n = max(H, W)
+        control = n in (280, 560)  # just below the boundary: in the quick tier only the plain cases
+        for mname in long_masks(H, W):
+            for dtype in ("f64", "f32"):
+                if ctx.quick and control and (mname != "none" or dtype == "f32"):
+                    continue
+                for field in ("long_ramp", "long_diag_neg"):
+                    if ctx.quick and control and field != "long_ramp":
+                        continue
+                    pts.append((H, W, mname, False, field, dtype))
+                if not (ctx.quick and (control or mname == "hole")):
+                    pts.append((H, W, mname, True, "long_triangle", dtype))
+    # heaviest first
+    return sorted(pts, key=lambda p: (-p[0] * p[1], p))
+
+
+# ============================================================================= A3: long path graphs on the real union-find
+A3_ORDERS = ("left_to_right", "right_to_left", "middle_out", "interleaved")
+
+
+def a3_order(name, N):
+    E = N - 1  # edge i joins pixels i and i+1
+    if name == "left_to_right":
+        return list(range(E))
+    if name == "right_to_left":
+        return list(range(E - 1, -1, -1))
+    if name == "middle_out":
+        m = E // 2
+        out = [m]
+        for d in range(1, E):
+            if m - d >= 0:
+                out.append(m - d)
+            if m + d < E:
+                out.append(m + d)
+        return out
+    if name == "interleaved":
+        return list(range(0, E, 2)) + list(range(1, E, 2))
+    raise ValueError(name)
+
+
+def a3_worker(item, seed=0):
+    """One 1xN chain, ramp at +-0.9*pi per sample, edges merged in a structured order on the real union-find (built the way
+    the unwrapper builds it); the offset invariant is checked every `step` unions and at the end."""
+    N, oname, sign = item
+    S = seam()
+    t = Tally()
+    f = sign * ITOH * np.arange(N, dtype=float) + 0.37
+    w, kk = wrap_counts(f)
+    kk = kk.tolist()
+    phi = torch.tensor(w, dtype=torch.float64)
+    true_inc = [kk[i] - kk[i + 1] for i in range(N - 1)]
+    inc = true_inc
+    cls_base = {"part": "A3_long_path", "wrap_around": False}
+    case = {"part": "A3", "N": N, "order": oname, "sign": sign}
+    where = f"1x{N} chain, ramp {sign * 0.9:+.1f}*pi per sample (true wrap counts 0..{kk[-1]}), edges merged {oname}"
+    if S.find_wrap is not None:
+        inc = [int(v) for v in S.find_wrap(phi[:-1], phi[1:]).tolist()]
+        badl = [i for i in range(N - 1) if inc[i] != true_inc[i]]
+        if badl:
+            i = badl[0]
+            t.fail(dict(cls_base, relation="edge_label_equals_true_wrap_difference"), case, f"{where}: _find_wrap labels edge ({i},{i + 1}) with {inc[i]}, true wrap-count difference is {true_inc[i]} ({len(badl)} edges wrong)")
+    order = a3_order(oname, N)
+    if sorted(order) != list(range(N - 1)):
+        raise Broken(f"a3_order({oname}, {N}) is not a permutation of the edges")
+    uf = S.make(N)
+    step = max(16, N // 32) if N <= 2000 else N  # long chains: at the end only
+    done = 0
+    failed = False
+    for e in order:
+        uf.union(e, e + 1, inc[e])
+        done += 1
+        if done % step == 0 or done == N - 1:
+            roots, bad = inspect_state(uf, N, kk, S.final if N <= 2000 or done == N - 1 else None)
+            if done == N - 1 and len(set(roots)) != 1:
+                bad.append(("one_component_per_connected_region", f"all {N - 1} edges merged but {len(set(roots))} union-find components are left"))
+            for rel, msg in bad:
+                t.fail(dict(cls_base, relation=rel), dict(case, unions=done), f"{where}: after {done} unions: {msg}")
+                failed = True
+            if failed:
+                break
+    t.n += done
+    t.nontrivial.add(digest(["A3", N, oname, sign]))
+    t.outcomes.add(digest(["A3", N, oname, sign, repr(state_key(uf))]))
+    t.extra["A3_chains"] += 1
+    t.extra["A3_unions"] += done
+    if (N, oname, sign) == (300, "middle_out", 1):
+        od = {n_: v for n_, v in state_key(uf)}.get("offset", ())
+        t.sample({"part": "A3", "chain": N, "order": oname, "first_edges": order[:6], "true_wrap_count_last_pixel": kk[-1],
+                  "stored_offset_min_max": [min(od), max(od)] if od else None, "unions": done}, cap=1)
+    return t
+
+
+# ============================================================================= H: call histories (a result must not depend on earlier calls)
+H_SHAPE, H_CONTROL = (6, 8), (5, 7)
+
+
+def seam_disc(H, W, r=1.5):
+    """Disc centred on pixel (0, 0) of the torus: four corner pieces that are connected only through the wrap-around seam."""
+    yy, xx = np.mgrid[:H, :W]
+    dy, dx = np.minimum(yy, H - yy), np.minimum(xx, W - xx)
+    return dy * dy + dx * dx <= r * r
+
+
+def seam_field(H, W):
+    """Periodic, single valued, steepest across the x seam and crossing an odd multiple of pi exactly there: every
+    in-mask pixel left of the seam (x = W-1, W-2) has wrap count 0, every one right of it (x = 0, 1) has wrap count 1."""
+    yy, xx = np.mgrid[:H, :W].astype(float)
+    A = 0.85 * math.pi / (2 * math.sin(math.pi / W))
+    return math.pi + A * np.sin(2 * np.pi * (xx + 0.5) / W) + 0.2 * np.cos(2 * np.pi * yy / H)
+
+
+def h_alphabet():
+    calls = []
+    for shp in (H_SHAPE, H_CONTROL):
+        calls += [("bounded_winding", shp), ("seam_disc_periodic", shp), ("bounded_masked", shp)]
+    calls += [("periodic_full", H_SHAPE), ("bounded_f32_holes", H_SHAPE), ("poisson", H_SHAPE)]
+    return calls
+
+
+def h_build(call, seed):
+    """(truth, mask or None, wrap_around, dtype, method)"""
+    kind, (H, W) = call[0], tuple(call[1])
+    if kind == "bounded_winding":  # bounded ramp: its wrapped version winds around the x axis, so periodic edges would be wrong
+        return make_field("ramp_a", H, W, False, seed), None, False, "f64", "reliability-sorting"
+    if kind == "seam_disc_periodic":
+        return seam_field(H, W), seam_disc(H, W), True, "f64", "reliability-sorting"
+    if kind == "bounded_masked":
+        return make_field("ramp_b", H, W, False, seed), named_mask("bridge_col", H, W, seed), False, "f64", "reliability-sorting"
+    if kind == "periodic_full":
+        return make_field("per_bl0", H, W, True, seed), None, True, "f64", "reliability-sorting"
+    if kind == "bounded_f32_holes":
+        return make_field("bump", H, W, False, seed), named_mask("holes2", H, W, seed), False, "f32", "reliability-sorting"
+    if kind == "poisson":
+        return make_field("per_sin", H, W, True, seed), None, True, "f64", "poisson"
+    raise ValueError(kind)
+
+
+def h_do(call, seed, check):
+    """Execute one call of the alphabet on the real code. Always: input and mask bitwise unchanged. When `check`: the
+    usual oracle (Poisson: does not raise). Returns list of (relation, message)."""
+    truth, mask, wrap, dtype, method = h_build(call, seed)
+    H, W = truth.shape
+    given64 = wrap_pi(truth)
+    x = torch.tensor(given64, dtype=torch_dtype(dtype))
+    given = x.to(torch.float64).numpy().copy()
+    mt = None if mask is None else torch.tensor(mask)
+    x0 = x.clone()
+    try:
+        out = public_unwrap()(x, method=method, mask=mt, wrap_around=wrap)
+        out = out.detach().to(torch.float64).numpy()
+    except Exception as e:
+        return [("raised", f"raised {type(e).__name__}: {e}")] if check else []
+    bad = []
+    if x.numpy().tobytes() != x0.numpy().tobytes() or (mt is not None and not np.array_equal(mt.numpy(), mask)):
+        bad.append(("input_unmodified", "the call changed its input tensor or mask in place"))
+    if check and method == "reliability-sorting":
+        m = np.ones((H, W), bool) if mask is None else mask
+        lab, n = components(m, wrap)
+        bad += judge(out, truth + (given - given64), given, lab, n, True, "wrapped")[0]
+    return bad
+
+
+def h_reload():
+    import importlib
+
+    return importlib.reload(_iu())
+
+
+def h_run_history(hist, seed):
+    h_reload()  # fresh module-level state for every history
+    bad = []
+    for c in hist[:-1]:
+        bad += [(rel, f"(call {list(c)}) {msg}") for rel, msg in h_do(c, seed, check=False)]
+    bad += h_do(hist[-1], seed, check=True)
+    return bad
+
+
+def h_worker(item, seed=0):
+    """Every history `item + [c]` for c in the call alphabet (item = a prefix of 0, 1 or 2 calls); the LAST call is judged,
+    imaging_utils is re-imported before each history."""
+    prefix = [(c[0], tuple(c[1])) for c in item]
+    t = Tally()
+    try:
+        for last in h_alphabet():
+            hist = prefix + [last]
+            bad = h_run_history(hist, seed)
+            hj = [[c[0], list(c[1])] for c in hist]
+            case = {"part": "H", "history": hj}
+            t.case(key=case, nontrivial=any(c != last for c in prefix), outcome=("H", hj[-1], len(bad)))
+            t.extra["H_histories"] += 1
+            t.extra[f"H_histories_of_length_{len(hist)}"] += 1
+            for rel, msg in bad:
+                same_shape = any(c[1] == last[1] for c in prefix)
+                relation = rel if (rel == "input_unmodified" or not prefix) else "result_independent_of_earlier_calls"
+                t.fail({"part": "H_call_history", "relation": relation, "last_call": last[0]}, case,
+                       f"after the calls {hj[:-1]} ({'same' if same_shape else 'only other'} shape before) the call {hj[-1]} fails [{rel}]: {msg}")
+            if len(hist) == 2 and prefix[0] == ("bounded_winding", H_SHAPE) and last == ("seam_disc_periodic", H_SHAPE):
+                t.sample({"part": "H", "history": hj, "failures": len(bad)}, cap=1)
+    finally:
+        h_reload()
+    return t
+
+
 # ============================================================================= enumeration
 A1_BOUNDED_FIELDS = ["ramp_a", "ramp_b", "quad_saddle", "bl0"]
 A1_PERIODIC_FIELDS = ["per_sin", "per_bl0"]
@@ -1028,6 +1377,8 @@ def run(ctx):
         "the additive constant is allowed to differ between connected regions (the weaker reading of 'a single constant')",
         "a union of two pixels that already share a root is a self-loop of the state graph (validated exhaustively on the 2x3 graph before the reduction is used)",
         "Poisson method: only 'does not raise' with wrap_around=True",
+        "magnitude thresholds are only visible where the alphabet straddles them: wrap counts up to 269 end to end (L), 32,850 on the union-find alone (A3, thorough); larger counts are not explored",
+        "hidden state between calls is looked for in quantem.core.utils.imaging_utils only (re-imported before every call history); histories of 2 (thorough: 3) calls from a 9-call alphabet",
     )
     for m in S.missing:
         ctx.seam_missing.append(m)
@@ -1107,6 +1458,35 @@ def run(ctx):
         if r.extra["B_calls"] != (total - 1) * len(combos):
             raise Broken(f"every-mask enumeration {H}x{W} incomplete: {r.extra['B_calls']} calls")
 
+    # ---- L: long steep fields straddling the integer-type boundaries of the wrap count
+    lpts = long_lattice(ctx)
+    lt = ctx.pmap(long_point, lpts, chunk=1, label="L long steep fields", seed=seed)
+    if lt.extra["L_wrap_span_128_255"] < 4 or lt.extra["L_wrap_span_256_32767"] < 4 or lt.extra["L_wrap_span_le127"] < 2:
+        raise Broken("L: the long fields do not straddle the 127/128 and 255/256 wrap-count boundaries")
+
+    # ---- A3: long chains on the real union-find
+    if S.cls is not None:
+        chains = [(N, o, sg) for N in (300, 600) for o in A3_ORDERS for sg in (1, -1)]
+        if not ctx.quick:
+            chains = [(73000, "left_to_right", 1)] + chains  # wrap count 32,850: beyond a signed 16-bit integer
+        ctx.pmap(a3_worker, chains, chunk=1, label="A3 long chains", seed=seed)
+
+    # ---- H: call histories
+    for c in h_alphabet():
+        if c[0] == "seam_disc_periodic":  # the seam case must be able to tell bounded from periodic edges
+            truth, mask, _, _, _ = h_build(c, seed)
+            kk = wrap_counts(truth)[1]
+            lab_b, nb = components(mask, False)
+            lab_p, npc = components(mask, True)
+            per_piece = [set(kk[lab_b == i].tolist()) for i in range(1, nb + 1)]
+            if npc != 1 or nb < 2 or any(len(v) != 1 for v in per_piece) or len(set.union(*per_piece)) < 2 or max_step(truth, True) > 0.9001 * math.pi:
+                raise Broken(f"H: seam-disc case {c} is degenerate (pieces {nb}, periodic regions {npc}, wrap counts per piece {per_piece})")
+    hitems = [[]] + [[c] for c in h_alphabet()]
+    if not ctx.quick:
+        hitems += [[a, b] for a in h_alphabet() for b in h_alphabet()]
+    ht = ctx.pmap(h_worker, hitems, chunk=1, label="H call histories", seed=seed)
+    h_reload()
+
     # ---- BF
     if S.bf is not None:
         ctx.pmap(bf_point, bf_lattice(), label="BF masked embedding", seed=seed)
@@ -1135,6 +1515,12 @@ def run(ctx):
             "B_every_mask": nall,
             "itoh_max_neighbour_step": "0.9*pi",
             "tolerance_rad": TOL,
+            "L_shapes": [list(x) for x in long_shapes()], "L_points": len(lpts), "L_tolerance": "max(2e-3, 32*eps32*field range), <= 0.3 rad",
+            "L_wrap_count_boundaries_straddled": ["127/128", "255/256"],
+            "L_boundary_32767_32768": "not explored end to end (needs a 1 x 73,000 grid whose tree root is at one end); reached in A3 only, thorough tier",
+            "A3_chains": [300, 600] + ([] if ctx.quick else [73000]), "A3_orders": list(A3_ORDERS),
+            "H_call_alphabet": [[c[0], list(c[1])] for c in h_alphabet()], "H_history_length": 2 if ctx.quick else 3,
+            "H_histories": int(ht.extra["H_histories"]),
         },
         alphabet={
             "A1_fields_bounded": A1_BOUNDED_FIELDS, "A1_fields_periodic": A1_PERIODIC_FIELDS,
@@ -1166,7 +1552,7 @@ def replay(ctx, case):
         for a, b, inc, true_inc in su["label_bad"]:
             ctx.fail({"part": "A1_merge_orders", "relation": "edge_label_equals_true_wrap_difference", "wrap_around": bool(case["wrap"])}, case,
                      f"_find_wrap labels edge ({a},{b}) with {inc}, true wrap-count difference is {true_inc}")
-        uf = S.cls(N)
+        uf = S.make(N)
         done = []
         label = {(a, b): inc for a, b, inc in su["events"]}  # labels as THIS tree computes them, not as recorded
         for a, b, inc_recorded in case["history"]:
@@ -1197,6 +1583,28 @@ def replay(ctx, case):
         print(f"  components {r['outcome'][0] if isinstance(r['outcome'], tuple) else r['outcome']}, worst deviation {r['worst']:.3g} rad, expected <= {TOL}")
         for rel, msg in r["bad"]:
             ctx.fail({"part": "B_end_to_end", "relation": rel, "wrap_around": bool(case["wrap"])}, case, msg)
+    elif part == "L":
+        pt = case["pt"]
+        r = long_run(pt[0], pt[1], pt[2], pt[3], pt[4], pt[5])
+        print(f"  true wrap count spans {r['span']} inside one region; worst deviation {r['worst']:.4g} rad, tolerance {r['tol']:.3g} rad")
+        for rel, msg in r["bad"]:
+            ctx.fail({"part": "L_long_steep_fields", "relation": rel, "wrap_around": bool(pt[3])}, case, msg)
+    elif part == "A3":
+        if S.cls is None:
+            print("  UnionFindPhase seam not present on this tree: nothing to replay")
+            return
+        print(f"  union-find built as the unwrapper builds it: extra arguments {S.ctor_extra}")
+        t = a3_worker((case["N"], case["order"], case["sign"]), seed=seed)
+        for f in t.fails:
+            ctx.fail(f["cls"], case, f["msg"])
+    elif part == "H":
+        hist = [(c[0], tuple(c[1])) for c in case["history"]]
+        bad = h_run_history(hist, seed)
+        alone = h_run_history(hist[-1:], seed)
+        h_reload()
+        print(f"  last call after the history: {len(bad)} failure(s); the same call alone in a fresh module: {len(alone)} failure(s)")
+        for rel, msg in bad:
+            ctx.fail({"part": "H_call_history", "relation": rel, "last_call": hist[-1][0]}, case, f"history {case['history']}: [{rel}] {msg}")
     elif part == "BF":
         if S.bf is None:
             print("  unwrap_bf_overlap_phase_torch not present on this tree")
